@@ -403,6 +403,21 @@ class DirListing:
     def sym_contains(self, I, x):
         return self.has(x)
 
+    def sym_comprehension(self, I, n, g, env):
+        """`[name for name in listing if cond(name)]`: over-approximated by an arbitrary sub-collection of the listed names
+        (the filter condition is not evaluated)."""
+        import ast
+        from .engine import MList, Forall
+        from .values import SSet, SInt
+        if not (isinstance(g.target, ast.Name) and isinstance(n.elt, ast.Name) and n.elt.id == g.target.id):
+            raise Unsupported('comprehension over a directory listing that transforms the names')
+        vc = I.vc
+        S = SSet.fresh('listed_subset')
+        vc.assume(Forall(lambda k: implies(S.has(k), self.has(k))))
+        cnt = SInt.fresh('nlisted')
+        vc.assume(cnt >= 0)
+        return MList(None, n=cnt, elems=S)
+
 
 class _ListingIter:
     """for name in os.listdir(d): ghost `done` = names already taken (set); each step takes a fresh listed name."""
